@@ -711,7 +711,7 @@ def clause_scan_unord(R, F, CG, U=None):
              "rows are seen depends on hash iteration order, so uncommitted rows can be missed" % (
                  m, "; ".join("%s at %s" % (e["cond"][:90], e["at"]) for e in info["exits"])),
              sample={"rule": "U-EXIT", "fn": fn.name, "loop_line": info["line"], "effects": [e["callee"].split("::")[-1] for e in info["effects"]]})
-    R.floor("hash_loops_in_tables", n, 6)
+    R.floor("hash_loops_in_tables", n, 4)
     for m in ("get_range", "all"):
         fn = _tfn(F, _tt(F, "BlockCachedDatabase"), m)
         if fn is None:
@@ -725,8 +725,8 @@ def clause_scan_unord(R, F, CG, U=None):
     return U
 
 
-def clause_read_merge(R, F):
-    """point reads consult the cache first and fall to disk only on a miss; scans merge disk then cache"""
+def clause_read_merge(R, F, scans=("get_range", "all")):
+    """point reads consult the cache first and fall to disk only on a miss; scans (those named in `scans`) merge disk then cache"""
     for (tsuf, meth, mapget) in (("BlockCachedDatabase", "latest", "HashMap"), ("BlockDatabase", "get", "BTreeMap")):
         fn = _tfn(F, _tt(F, tsuf), meth)
         if fn is None:
@@ -760,6 +760,8 @@ def clause_read_merge(R, F):
     # scans
     tname = _tt(F, "BlockCachedDatabase")
     for meth, scan in (("get_range", "iterator"), ("all", "full_iterator")):
+        if meth not in scans:
+            continue
         fn = _tfn(F, tname, meth)
         if fn is None:
             continue
@@ -784,6 +786,13 @@ def clause_read_merge(R, F):
                     for i in ins:
                         if any(a2 == a and s3 != s2 for (a2, s3) in control_deps(fn).get(i.bb, set())):
                             okr = True
+        # equivalent idiom: the merged result is filtered afterwards by `retain(|k, _| <cache says k still has a value>)`
+        for c in fn.calls():
+            if (c.method or "") == "retain" and not fn.is_cleanup(c.bb) and mem and (fn.dominates(disk[0].bb, c.bb) if disk else False):
+                for cid in ((c.func or {}).get("arg_cl") or []):
+                    g = F.fns.get(cid)
+                    if g is not None and any((x.method or "") == "latest" for gg in [g] + F.descendants(g.id) for x in gg.calls()):
+                        okr = True
         R.ob(okr, "READ-MERGE", fn.where(), "READ-MERGE|table.%s|unset-shadows" % meth,
              "%s: an uncommitted removal (cached history whose latest value is None) does not remove the persisted row from the scan result: "
              "the row reappears until the next commit" % meth, sample={"rule": "READ-MERGE scan", "fn": fn.name, "row": "latest()==None => remove(key)"})
